@@ -4,6 +4,7 @@ package main
 
 import (
 	"fmt"
+	"go/constant"
 	"go/token"
 	"go/types"
 	"sort"
@@ -2444,4 +2445,335 @@ func (ck *Check) passThroughMethod(f *types.Func, ifaces []*types.Named) bool {
 		}
 	}
 	return nret > 0
+}
+
+// clusterView (C13.R7 / C01.R11): the scan's view of the cluster is what the two informers list
+// and watch. Every call of cache.NewListWatchFromClient in shipped code is for "pods" or "nodes",
+// over all namespaces; the node selector selects everything, and the pod selector leaves out
+// nothing but pods whose phase is Succeeded or Failed (pods that hold no resources any more). A
+// namespace, a label or phase restriction makes pods invisible: their requests are missing from
+// the utilisation and their node looks empty to the reapers. The selector is read as a set of
+// (field, operator, value) requirements, however it is built (ParseSelector* of a constant string,
+// fmt.Sprint / + / strings.Join of constants, OneTerm*Selector, AndSelectors, Everything).
+func (ck *Check) clusterView(rule string) {
+	type req struct{ k, op, v string }
+	var constStr func(v ssa.Value, depth int) (string, bool)
+	constStr = func(v ssa.Value, depth int) (string, bool) {
+		if depth > 6 {
+			return "", false
+		}
+		switch x := v.(type) {
+		case *ssa.Const:
+			if x.Value != nil && x.Value.Kind() == constant.String {
+				return constant.StringVal(x.Value), true
+			}
+		case *ssa.Convert:
+			return constStr(x.X, depth+1)
+		case *ssa.ChangeType:
+			return constStr(x.X, depth+1)
+		case *ssa.MakeInterface:
+			return constStr(x.X, depth+1)
+		case *ssa.BinOp:
+			if x.Op == token.ADD {
+				a, ok1 := constStr(x.X, depth+1)
+				b, ok2 := constStr(x.Y, depth+1)
+				return a + b, ok1 && ok2
+			}
+		case *ssa.Call:
+			f := x.Common().StaticCallee()
+			if f == nil {
+				return "", false
+			}
+			switch f.String() {
+			case "fmt.Sprint":
+				// operands of string kind are concatenated without spaces
+				els, ok := variadicElems(x.Common().Args[0])
+				if !ok {
+					return "", false
+				}
+				out := ""
+				for _, e := range els {
+					s, ok := constStr(e, depth+1)
+					if !ok {
+						return "", false
+					}
+					out += s
+				}
+				return out, true
+			case "strings.Join":
+				sl, ok := x.Common().Args[0].(*ssa.Slice)
+				if !ok {
+					return "", false
+				}
+				els, ok := variadicElems(sl)
+				sep, ok2 := constStr(x.Common().Args[1], depth+1)
+				if !ok || !ok2 {
+					return "", false
+				}
+				var parts []string
+				for _, e := range els {
+					s, ok := constStr(e, depth+1)
+					if !ok {
+						return "", false
+					}
+					parts = append(parts, s)
+				}
+				return strings.Join(parts, sep), true
+			}
+		}
+		return "", false
+	}
+	var selector func(v ssa.Value, depth int) ([]req, bool)
+	selector = func(v ssa.Value, depth int) ([]req, bool) {
+		if depth > 6 {
+			return nil, false
+		}
+		if ex, ok := v.(*ssa.Extract); ok && ex.Index == 0 {
+			v = ex.Tuple
+		}
+		c, ok := v.(*ssa.Call)
+		if !ok {
+			return nil, false
+		}
+		f := c.Common().StaticCallee()
+		if f == nil || pkgPathOfFn(f) != "k8s.io/apimachinery/pkg/fields" {
+			return nil, false
+		}
+		switch f.Name() {
+		case "Everything":
+			return nil, true
+		case "ParseSelectorOrDie", "ParseSelector":
+			s, ok := constStr(c.Common().Args[0], 0)
+			if !ok {
+				return nil, false
+			}
+			var out []req
+			for _, part := range strings.Split(s, ",") {
+				if part == "" {
+					continue
+				}
+				switch {
+				case strings.Contains(part, "!="):
+					kv := strings.SplitN(part, "!=", 2)
+					out = append(out, req{kv[0], "!=", kv[1]})
+				case strings.Contains(part, "=="):
+					kv := strings.SplitN(part, "==", 2)
+					out = append(out, req{kv[0], "=", kv[1]})
+				case strings.Contains(part, "="):
+					kv := strings.SplitN(part, "=", 2)
+					out = append(out, req{kv[0], "=", kv[1]})
+				default:
+					return nil, false
+				}
+			}
+			return out, true
+		case "OneTermEqualSelector", "OneTermNotEqualSelector":
+			k, ok1 := constStr(c.Common().Args[0], 0)
+			val, ok2 := constStr(c.Common().Args[1], 0)
+			op := "="
+			if f.Name() == "OneTermNotEqualSelector" {
+				op = "!="
+			}
+			return []req{{k, op, val}}, ok1 && ok2
+		case "AndSelectors":
+			els, ok := variadicElems(c.Common().Args[0])
+			if !ok {
+				return nil, false
+			}
+			var out []req
+			for _, e := range els {
+				r, ok := selector(e, depth+1)
+				if !ok {
+					return nil, false
+				}
+				out = append(out, r...)
+			}
+			return out, true
+		}
+		return nil, false
+	}
+	seen := map[string]int{}
+	for _, fn := range ck.P.Funcs {
+		for _, ci := range callsIn(fn, nil) {
+			f := ci.Common().StaticCallee()
+			if f == nil || f.Name() != "NewListWatchFromClient" || !strings.HasSuffix(pkgPathOfFn(f), "client-go/tools/cache") || len(ci.Common().Args) != 4 {
+				continue
+			}
+			args := ci.Common().Args
+			res, okR := constStr(args[1], 0)
+			ns, okN := constStr(args[2], 0)
+			key := funcID(fn) + "/list-watch:" + res
+			if !okR || (res != "pods" && res != "nodes") {
+				ck.fail(rule, funcID(fn)+"/list-watch", ck.P.instrPos(ci), funcID(fn), "the informers list and watch \"pods\" and \"nodes\"", args[1].String(), "")
+				continue
+			}
+			seen[res]++
+			ck.cond(okN && ns == "", rule, key+"/namespace", ck.P.instrPos(ci), funcID(fn), res+" are listed and watched in all namespaces", args[2].String(), "pods outside the watched namespace are invisible: their requests are not counted and their nodes look empty")
+			reqs, okS := selector(args[3], 0)
+			if !okS {
+				ck.undecided(rule, key+"/selector", ck.P.instrPos(ci), funcID(fn), "the field selector is built from constants (ParseSelector*, OneTerm*Selector, AndSelectors, Everything)", args[3].String())
+				continue
+			}
+			var extra []string
+			for _, r := range reqs {
+				if res == "pods" && r.k == "status.phase" && r.op == "!=" && (r.v == "Succeeded" || r.v == "Failed") {
+					continue
+				}
+				extra = append(extra, r.k+r.op+r.v)
+			}
+			want := "every node"
+			if res == "pods" {
+				want = "every pod except those whose phase is Succeeded or Failed"
+			}
+			ck.cond(len(extra) == 0, rule, key+"/selector", ck.P.instrPos(ci), funcID(fn), "the informer selects "+want, fmt.Sprint(reqs), "objects are hidden from every scan by the selector: "+strings.Join(extra, ", "))
+		}
+	}
+	ck.cond(seen["pods"] == 1 && seen["nodes"] == 1, rule, "list-watch/census", "", "", "exactly one list-watch each for pods and for nodes", fmt.Sprint(seen), "")
+}
+
+// cacheSynced (C01.R12 / C13.R8): the first scan must not run on an empty or half-filled cache — a
+// tainted node whose pods have not been listed yet looks empty and is reaped. NewClient hands out a
+// client only after both informers reported HasSynced: every nil-error return is reached only when
+// the wait (k8s.WaitForSync or cache.WaitForCacheSync) over both informers' HasSynced functions
+// returned true, and the wait helper returns true only as the result of cache.WaitForCacheSync on
+// the functions it was given.
+func (ck *Check) cacheSynced(rule string) {
+	fn := ck.A.NewClient
+	if fn == nil {
+		ck.lost(rule, "NewClient", "not resolved")
+		return
+	}
+	ctx := ck.P.NewCtx(fn)
+	isSyncedType := func(t types.Type) bool { return strings.HasSuffix(typeName(t), "cache.InformerSynced") }
+	// the informers' HasSynced values: results of type InformerSynced of calls in NewClient
+	var synced []ssa.Value
+	for _, b := range fn.Blocks {
+		for _, in := range b.Instrs {
+			if ex, ok := in.(*ssa.Extract); ok && isSyncedType(ex.Type()) {
+				synced = append(synced, ex)
+			}
+		}
+	}
+	ck.cond(len(synced) == 2, rule, funcID(fn)+"/informers", ck.P.position(fn.Pos()), funcID(fn), "NewClient starts two informers (pods, nodes), each handing back its HasSynced function", fmt.Sprint(len(synced)), "")
+	// the wait
+	var wait *ssa.Call
+	var helper *ssa.Function
+	for _, ci := range callsIn(fn, nil) {
+		c, ok := ci.(*ssa.Call)
+		if !ok || !isBool(c.Type()) {
+			continue
+		}
+		f := c.Common().StaticCallee()
+		if f == nil {
+			continue
+		}
+		takesSynced := false
+		for i := 0; i < f.Signature.Params().Len(); i++ {
+			if sl, ok := f.Signature.Params().At(i).Type().Underlying().(*types.Slice); ok && isSyncedType(sl.Elem()) {
+				takesSynced = true
+			}
+		}
+		if !takesSynced {
+			continue
+		}
+		wait = c
+		if ck.P.inRepo(f) {
+			helper = f
+		} else if !(f.Name() == "WaitForCacheSync" && strings.HasSuffix(pkgPathOfFn(f), "client-go/tools/cache")) {
+			wait = nil
+		}
+	}
+	if wait == nil {
+		ck.fail(rule, funcID(fn)+"/wait", ck.P.position(fn.Pos()), funcID(fn), "NewClient waits for the informer caches to sync", "no call taking the HasSynced functions", "the first scans run on an empty cache: nodes with pods look empty")
+		return
+	}
+	// both informers are waited for
+	last := wait.Common().Args[len(wait.Common().Args)-1]
+	els, ok := variadicElems(last)
+	covered := 0
+	if ok {
+		for _, sv := range synced {
+			for _, e := range els {
+				if e == sv {
+					covered++
+				}
+			}
+		}
+	}
+	ck.cond(ok && covered == len(synced) && covered > 0, rule, ck.P.siteKey(wait)+"/covers", ck.P.instrPos(wait), funcID(fn), "the wait covers the HasSynced function of every informer started", fmt.Sprintf("%d of %d", covered, len(synced)), "one cache may still be empty when the first scan runs")
+	// success only after the wait said yes
+	okWait := ctx.Formula(wait)
+	n := 0
+	for _, b := range fn.Blocks {
+		r, ok := b.Instrs[len(b.Instrs)-1].(*ssa.Return)
+		if !ok || len(r.Results) == 0 {
+			continue
+		}
+		et := ctx.Term(r.Results[len(r.Results)-1])
+		if !(et.Kind == "const" && et.Name == "nil") {
+			continue
+		}
+		n++
+		ck.entails(rule, fmt.Sprintf("%s/return@block%d", funcID(fn), b.Index), r, And(ctx.BlockPC(b), FTrue), okWait, "NewClient returns a client (nil error) only if the wait for the caches returned true")
+	}
+	ck.floor(rule, "success returns of NewClient", n, 1)
+	// the helper says yes only as cache.WaitForCacheSync's answer on what it was given
+	if helper != nil {
+		var sp *ssa.Parameter
+		for _, p := range helper.Params {
+			if sl, ok := p.Type().Underlying().(*types.Slice); ok && isSyncedType(sl.Elem()) {
+				sp = p
+			}
+		}
+		okH := sp != nil
+		why := ""
+		var trace func(v ssa.Value, seen map[ssa.Value]bool) bool
+		trace = func(v ssa.Value, seen map[ssa.Value]bool) bool {
+			if seen[v] {
+				return true
+			}
+			seen[v] = true
+			switch x := v.(type) {
+			case *ssa.Const:
+				return x.Value != nil && x.Value.String() == "false"
+			case *ssa.Phi:
+				for _, e := range x.Edges {
+					if !trace(e, seen) {
+						return false
+					}
+				}
+				return true
+			case *ssa.Call:
+				f := x.Common().StaticCallee()
+				return f != nil && f.Name() == "WaitForCacheSync" && strings.HasSuffix(pkgPathOfFn(f), "client-go/tools/cache") && len(x.Common().Args) == 2 && x.Common().Args[1] == ssa.Value(sp)
+			}
+			return false
+		}
+		hctx := ck.P.NewCtx(helper)
+		for _, b := range helper.Blocks {
+			if r, ok := b.Instrs[len(b.Instrs)-1].(*ssa.Return); ok && len(r.Results) == 1 {
+				if trace(r.Results[0], map[ssa.Value]bool{}) {
+					continue
+				}
+				// `if cache.WaitForCacheSync(…) { return true }`: true under the call's own answer
+				if k, isConst := r.Results[0].(*ssa.Const); isConst && k.Value != nil && k.Value.String() == "true" {
+					pc := hctx.BlockPC(b)
+					answered := false
+					for _, at := range pc.Atoms() {
+						if c, isCall := at.Val.(*ssa.Call); isCall && trace(c, map[ssa.Value]bool{}) {
+							if imp, _, _ := Entails(pc, Atom(at)); imp {
+								answered = true
+							}
+						}
+					}
+					if answered {
+						continue
+					}
+				}
+				okH = false
+				why = "returns " + r.Results[0].String()
+			}
+		}
+		ck.cond(okH, rule, funcID(helper)+"/answer", ck.P.position(helper.Pos()), funcID(helper), "the wait helper returns true only as cache.WaitForCacheSync's answer for the functions it was given", "", why)
+	}
 }
